@@ -82,3 +82,225 @@ Example C08_lowlevel_example :
 Proof. vm_compute. reflexivity. Qed.
 
 Print Assumptions C08_lowlevel_stateless_preserves_state.
+
+
+(* ==================================================================================================================
+   Q-to-R bridge for the framework model (proofs/QR_bridge_Model.v).
+   The theorems above hold for every [Num] instance, in particular R; the correspondence run of C08 executes the shared
+   runner run/RunModel.v ([chk_hist_both]: model/ModelSem.v and model/ProxySem.v with the node kinds of model/Kinds.v) at
+   F := Q.  For rational parameters and data, every combination of stateful / reset / from_state, Model.reset, and a run
+   that fails part-way: executed at Q and then embedded with Q2R = executed at R on the embedded data (same success flag,
+   embedded outputs, point-wise embedded states, hidden memory, proxies and clamps).  The bridge itself uses no functional
+   extensionality (environments and input maps are related point-wise), no shape hypothesis, no side condition.
+   After this block the cone of this file imports Reals; the theorems above are unaffected (their Print Assumptions
+   output is unchanged: closed, except C08_stateless_repeatable which used functional extensionality before). *)
+From Coq Require Import Reals Qreals.
+From RV Require Import base.NumHom run.RunModel proofs.QR_bridge_Model.
+
+(* the states an operation starts from (from_state / reset), the restoration of stateful=False, Model.reset *)
+Theorem C08_Qstate_contexts_embed (m : @model Q) (mR : @model R) (e : @env Q) (eR : @env R) :
+  m_rel Q2R m mR -> env_rel Q2R e eR ->
+  (forall reset from fromR, opt_rel Q2R from fromR -> env_rel Q2R (start_env m reset from e) (start_env mR reset fromR eR)) /\
+  (forall ids (snap : @env Q) (snapR : @env R), env_rel Q2R snap snapR -> env_rel Q2R (restore_st ids snap e) (restore_st ids snapR eR)) /\
+  env_rel Q2R (reset_op m e) (reset_op mR eR).
+Proof.
+  intros Hm He. split; [|split]; intros.
+  - apply (start_env_rel Q2R); assumption.
+  - apply (restore_st_rel Q2R); assumption.
+  - apply (reset_op_rel Q2R); assumption.
+Qed.
+
+(* Model.run / Node.run on one sequence with every combination of the flags, including a failing forward function:
+   final environment (restored or not), the rows emitted before the failure, the success flag *)
+Theorem C08_Qrun_op_embeds_in_Rrun_op (m : @model Q) (mR : @model R) stateful reset from fromR steps stepsR (e : @env Q) (eR : @env R) :
+  m_rel Q2R m mR -> opt_rel Q2R from fromR -> steps_rel Q2R steps stepsR -> env_rel Q2R e eR ->
+  let r := run_op m stateful reset from steps e in
+  let rR := run_op mR stateful reset fromR stepsR eR in
+  env_rel Q2R (fst (fst r)) (fst (fst rR)) /\ snd (fst rR) = map qm2r (snd (fst r)) /\ snd rR = snd r.
+Proof. exact (run_op_rel Q2R m mR stateful reset from fromR steps stepsR e eR). Qed.
+
+(* the low-level mechanism: Model.run, Model.call, Model.reset with explicit `_state_proxy` / clamp management; being at rest
+   (no proxy, no clamp left) is the same fact on both sides *)
+Theorem C08_Qlowlevel_embeds (m : @model Q) (mR : @model R) stateful reset from fromR (el : @lenv Q) (elR : @lenv R) :
+  m_rel Q2R m mR -> opt_rel Q2R from fromR -> lenv_rel Q2R el elR ->
+  (forall steps stepsR, steps_rel Q2R steps stepsR ->
+     let r := run_op_ll m stateful reset from steps el in
+     let rR := run_op_ll mR stateful reset fromR stepsR elR in
+     lenv_rel Q2R (fst (fst r)) (fst (fst rR)) /\ snd (fst rR) = map qm2r (snd (fst r)) /\ snd rR = snd r) /\
+  (forall ext extR forced forcedR, opt_rel Q2R ext extR -> opt_rel Q2R forced forcedR ->
+     let r := call_op_ll m stateful reset from ext forced el in
+     let rR := call_op_ll mR stateful reset fromR extR forcedR elR in
+     lenv_rel Q2R (fst (fst r)) (fst (fst rR)) /\ snd (fst rR) = map qm2r (snd (fst r)) /\ snd rR = snd r) /\
+  lenv_rel Q2R (reset_op_ll m el) (reset_op_ll mR elR) /\
+  (forall nodes, at_restbR nodes elR = at_restb nodes el).
+Proof.
+  intros Hm Hf He. split; [|split; [|split]]; intros.
+  - apply (run_op_ll_rel Q2R); assumption.
+  - apply (call_op_ll_rel Q2R); assumption.
+  - apply (reset_op_ll_rel Q2R); assumption.
+  - apply at_restb_R; assumption.
+Qed.
+
+(* the verdict of the correspondence runner is a statement about the R-instance history *)
+Theorem C08_chk_hist_both_is_about_R_model (nodes : list snode) (models : list smodel) (l : list (op * obs)) :
+  chk_hist_both nodes models l = true ->
+  topo_ok models = true /\ hist_okR nodes models l (init_envR nodes) /\ hist_okR_ll nodes models l (init_envR_ll nodes).
+Proof. exact (chk_hist_both_is_about_R_model nodes models l). Qed.
+(* ... where, on the low-level model, [hist_okR_ll] reads for a non-empty history: *)
+Theorem C08_hist_okR_ll_spelled (nodes : list snode) (models : list smodel) (o : op) (ob : obs) rest (el : @lenv R) :
+  hist_okR_ll nodes models ((o, ob) :: rest) el <->
+  (let r := run_oneR_ll nodes models o el in
+   snd r = ook ob /\
+   (snd r = true -> Forall2 (Forall2 (Forall2 rclose)) (snd (fst r)) (map qm2r (oouts ob))) /\
+   Forall (fun p => Forall2 rclose (lst (fst (fst r) (fst p))) (qv2r (snd p))) (ostates ob) /\
+   (forall b, orest ob = Some b -> at_restbR nodes (fst (fst r)) = b) /\
+   hist_okR_ll nodes models rest (fst (fst r))).
+Proof. exact (iff_refl _). Qed.
+
+(* non-vacuity: Reservoir with feedback from its readout -> Ridge forward -> a node that raises at its third call.
+   stateful run; stateless run from a given state with a forced (shifted) feedback; a stateless call with reset that FAILS
+   (success flag false, states as before); Model.reset.  The runner answers true, hence so does the R-model history *)
+Definition exB8_nodes : list snode :=
+  [mkSN 0 (KResFb [[1#2]] [[1#1]] [0#1] [1#1] AId [[1#2]] AHalf)%Q (Some (FbNode 1)) 1 [];
+   mkSN 1 (KLin [[2#1]] [1#2])%Q None 1 [];
+   mkSN 2 (KBoom 3) None 1 [[0#1]]%Q].
+Definition exB8_models : list smodel := [mkSM [0; 1; 2] [(1, [0]); (2, [1])] [2]].
+Definition exB8_hist : list (op * obs) :=
+  [(OpRun 0 true false [] [[(0%nat, [1#1])]]%Q false [],
+    mkObs true [[[5#2]]]%Q [(0%nat, [1#1]); (1%nat, [5#2]); (2%nat, [5#2])]%Q (Some true));
+   (OpRun 0 false false [(0%nat, [3#1])]%Q [[(0%nat, [1#2])]]%Q true [(0%nat, [[1#1]])]%Q,
+    mkObs true [[[7#1]]]%Q [(0%nat, [1#1]); (1%nat, [5#2]); (2%nat, [5#2])]%Q (Some true));
+   (OpCall 0 false true [] [(0%nat, [1#1])]%Q [],
+    mkObs false [] [(0%nat, [1#1]); (1%nat, [5#2]); (2%nat, [5#2])]%Q (Some true));
+   (OpReset 0, mkObs true [] [(0%nat, [0#1]); (1%nat, [0#1]); (2%nat, [0#1])]%Q (Some true))].
+Example C08_bridge_example :
+  chk_hist_both exB8_nodes exB8_models exB8_hist = true /\
+  hist_okR exB8_nodes exB8_models exB8_hist (init_envR exB8_nodes) /\
+  hist_okR_ll exB8_nodes exB8_models exB8_hist (init_envR_ll exB8_nodes).
+Proof.
+  assert (E : chk_hist_both exB8_nodes exB8_models exB8_hist = true) by (vm_compute; reflexivity).
+  split; [exact E | apply (C08_chk_hist_both_is_about_R_model _ _ _ E)].
+Qed.
+
+Print Assumptions C08_Qstate_contexts_embed.
+Print Assumptions C08_Qrun_op_embeds_in_Rrun_op.
+Print Assumptions C08_Qlowlevel_embeds.
+Print Assumptions C08_chk_hist_both_is_about_R_model.
+Print Assumptions C08_hist_okR_ll_spelled.
+
+
+(* ==================================================================================================================
+   Tie (T) for the state machinery (added to the correspondence tie (H) of the theorems above).
+   gen/Gen_state.v is regenerated on every run by tools/vlib/py2coq_state.py from the CURRENT text of Node.zero_state / state / reset /
+   _flag_feedback / with_state (reservoirpy/node.py), call (reservoirpy/_base.py) and Model.reset / Model.with_state
+   (reservoirpy/model.py), over the vocabulary of base/CtxPrelude.v: a computation is heap -> heap * outcome A (the heap of node objects
+   survives an exception), `try: .. finally: ..` is [try_finally], a @contextmanager generator is a function of the body of the `with`
+   statement, which stands where the generator yields, an ExitStack is the nesting of the contexts entered on it.
+   proofs/Gen_state_eq.v proves what the generated functions do for EVERY body and both of its outcomes, and that this is
+   start_env / restore_st / reset_op / run_op of model/ModelSem.v, the functions the theorems above are stated about. *)
+From RV Require Import base.CtxPrelude gen.Gen_state proofs.Gen_state_eq.
+
+(* the generated Node.with_state is the context manager of an explicit (enter, exit) pair: enter = refuse an uninitialised node, save
+   `_state`, reset(to_state = given | zero if reset | current); exit (the `finally`) = put `_state` back unless stateful *)
+Theorem C08_generated_with_state_is_enter_exit {F : Type} `{Num F} {P A : Type} (check_ok : option nat -> list F -> bool)
+        n state stateful reset (body : M (@heap F P) A) (h : @heap F P) :
+  GenState.Node_with_state check_ok n state stateful reset body h =
+    with_cm (ws_enter check_ok n state reset) (ws_exit n stateful) body h.
+Proof. exact (gen_with_state_is_cm check_ok n state stateful reset body h). Qed.
+
+(* stateful=False: `_state` of the node after the `with` block is `_state` before it -- for every body, whether it returned or raised,
+   every state / reset argument, accepted by check_one_sequence or not.  (Comes out of the translated try/finally.) *)
+Theorem C08_generated_with_state_restores {F : Type} `{Num F} {P A : Type} (check_ok : option nat -> list F -> bool)
+        n state reset (body : M (@heap F P) A) (h h' : @heap F P) r :
+  GenState.Node_with_state check_ok n state false reset body h = (h', r) -> a_state (h' n) = a_state (h n).
+Proof. exact (gen_with_state_restores check_ok n state reset body h h' r). Qed.
+
+Print Assumptions C08_generated_with_state_is_enter_exit.
+Print Assumptions C08_generated_with_state_restores.
+
+(* a from_state refused by check_one_sequence: the body is not run, nothing has been written; an uninitialised node: RuntimeError *)
+Theorem C08_generated_with_state_rejected {F : Type} `{Num F} {P A : Type} (check_ok : option nat -> list F -> bool)
+        n state stateful reset (body : M (@heap F P) A) (h : @heap F P) :
+  (a_is_initialized (h n) = false -> GenState.Node_with_state check_ok n state stateful reset body h = (h, Exc RuntimeError)) /\
+  (a_is_initialized (h n) = true -> enter_check check_ok (h n) state reset = false ->
+   GenState.Node_with_state check_ok n state stateful reset body h = (h, Exc CheckError)).
+Proof.
+  split; [exact (gen_with_state_uninitialized check_ok n state stateful reset body h)
+         |exact (gen_with_state_rejected check_ok n state stateful reset body h)].
+Qed.
+
+(* _base.call(node, x, from_state, stateful, reset) with stateful=False: `_state` afterwards is `_state` before, whether the forward
+   function returned or raised, for every forward function *)
+Theorem C08_generated_call_stateless_restores {F : Type} `{Num F} {P X : Type} (check_ok : option nat -> list F -> bool)
+        (fw : nat -> @obj F P -> X -> option (list F * P)) n x from reset (h h' : @heap F P) r :
+  GenState.call check_ok fw n x from false reset h = (h', r) -> a_state (h' n) = a_state (h n).
+Proof. exact (gen_call_stateless_restores check_ok fw n x from reset h h' r). Qed.
+
+(* _base.call = ModelSem's run_op on the one-node model and one step, for every combination of stateful / reset / from_state and both
+   outcomes of the forward function: same states and hidden memory afterwards, same output row, same success flag; `_fb_flag` is
+   flipped exactly when the forward function returned.  ([heap_good]: the node is initialised, `_state` an array, `_output_dim` the
+   model's; [starts_accepted]: the array the entry hands to check_one_sequence is accepted.) *)
+Theorem C08_generated_call_is_run_op {F : Type} `{Num F} (check_ok : option nat -> list F -> bool)
+        (d : @ndesc F) par from stateful reset ext forced (h : @heap F (@hidden F)) :
+  heap_good (one_node d par) h -> starts_accepted check_ok (one_node d par) reset from h ->
+  let m := one_node d par in
+  let e0 := start_env m reset from (habs h) in
+  let x := (gather m e0 ext (nid d), fbvalue d (proxies m forced e0) (clamps m forced)) in
+  let '(h', r) := GenState.call check_ok (fw_of d) (nid d) x (from (nid d)) stateful reset h in
+  let '(e', outs, ok) := run_op m stateful reset from [(ext, forced)] (habs h) in
+  (forall k, habs h' k = e' k) /\
+  a_fb_flag (h' (nid d)) = (if ok then negb (a_fb_flag (h (nid d))) else a_fb_flag (h (nid d))) /\
+  match r with Ok s => ok = true /\ outs = [[s]] | Exc _ => ok = false /\ outs = [] end.
+Proof. exact (gen_call_is_run_op check_ok d par from stateful reset ext forced h). Qed.
+
+(* Model.with_state(state, stateful, reset) -- snapshot path (state None, no reset) and ExitStack path alike -- around EVERY body:
+   the body runs from a heap that stands for start_env m reset state (C08_from_state / C08_start_env), and afterwards the heap stands
+   for the body's final environment when stateful, else for restore_st (ids_of m) <the environment before> <the body's final
+   environment> -- with the body's outcome [r], Ok or Exc, handed on unchanged: "restored unless stateful, also on failure"
+   (C08_stateless_preserves_state is this restore_st).  The contexts write nothing but `_state`. *)
+Theorem C08_generated_model_with_state_is_model {F : Type} `{Num F} {A : Type} (check_ok : option nat -> list F -> bool)
+        (m : @model F) (state : @mstate F) stateful reset (body : M (@heap F (@hidden F)) A) (h : @heap F (@hidden F)) :
+  NoDup (ids_of m) -> heap_good m h -> mstate_is_ndarray state = false ->
+  starts_accepted check_ok m reset (mstate_dict state) h ->
+  (forall h0 k, a_output_dim (fst (body h0) k) = a_output_dim (h0 k)) ->
+  exists h0 : @heap F (@hidden F),
+    (forall k, habs h0 k = start_env m reset (mstate_dict state) (habs h) k) /\ same_meta h0 h /\
+    let '(h1, r) := body h0 in
+    let '(h2, r2) := GenState.Model_with_state check_ok (ids_of m) state stateful reset body h in
+    r2 = r /\ same_meta h2 h1 /\
+    forall k, habs h2 k = (if stateful then habs h1 else restore_st (ids_of m) (habs h) (habs h1)) k.
+Proof. exact (gen_model_with_state_is_model check_ok m state stateful reset body h). Qed.
+(* an ndarray as `state`: TypeError before anything is touched *)
+Theorem C08_generated_model_with_state_ndarray {F : Type} `{Num F} {P A : Type} (check_ok : option nat -> list F -> bool)
+        nodes stateful reset (body : M (@heap F P) A) (h : @heap F P) :
+  GenState.Model_with_state check_ok nodes SArray stateful reset body h = (h, Exc TypeError).
+Proof. exact (gen_mwith_state_ndarray check_ok nodes stateful reset body h). Qed.
+
+(* Model.reset() = reset_op (C08_reset) *)
+Theorem C08_generated_model_reset_is_reset_op {F : Type} `{Num F} (check_ok : option nat -> list F -> bool)
+        (m : @model F) (h : @heap F (@hidden F)) :
+  NoDup (ids_of m) -> (forall d, In d (ModelSem.order m) -> a_output_dim (h (nid d)) = Some (odim d)) ->
+  let '(h', r) := GenState.Model_reset check_ok (ids_of m) None h in
+  r = Ok tt /\ same_meta h' h /\ forall k, habs h' k = reset_op m (habs h) k.
+Proof. exact (gen_model_reset_is_reset_op check_ok m h). Qed.
+
+(* non-vacuity: a node x -> s + x that raises on the input 9 (the generated call, executed): stateful call from state [1] with input [2];
+   stateless call from a given state; a stateless call with reset that FAILS: exception, `_state` back, `_fb_flag` not flipped *)
+Definition exG8_fw : nat -> @obj Q unit -> Q -> option (list Q * unit) :=
+  fun _ o x => if Qeq_bool x 9 then None else Some (map (fun s => Qplus s x) (match a_state o with Some v => v | None => [] end), tt).
+Definition exG8_heap : @heap Q unit := fun _ => mkObj (Some [1%Q]) true (Some 1%nat) false tt.
+Example C08_generated_example :
+  (let '(h1, r1) := GenState.call (fun _ _ => true) exG8_fw 0%nat 2%Q None true false exG8_heap in (a_state (h1 0%nat), a_fb_flag (h1 0%nat), r1))
+    = (Some [(1 + 2)%Q], true, Ok [(1 + 2)%Q]) /\
+  (let '(h1, r1) := GenState.call (fun _ _ => true) exG8_fw 0%nat 2%Q (Some [5%Q]) false false exG8_heap in (a_state (h1 0%nat), r1))
+    = (Some [1%Q], Ok [(5 + 2)%Q]) /\
+  (let '(h1, r1) := GenState.call (fun _ _ => true) exG8_fw 0%nat 9%Q None false true exG8_heap in (a_state (h1 0%nat), a_fb_flag (h1 0%nat), r1))
+    = (Some [1%Q], false, Exc ForwardError).
+Proof. vm_compute. repeat split; reflexivity. Qed.
+
+Print Assumptions C08_generated_with_state_rejected.
+Print Assumptions C08_generated_call_stateless_restores.
+Print Assumptions C08_generated_call_is_run_op.
+Print Assumptions C08_generated_model_with_state_is_model.
+Print Assumptions C08_generated_model_with_state_ndarray.
+Print Assumptions C08_generated_model_reset_is_reset_op.
